@@ -174,3 +174,37 @@ def finish(ctx, module, t0, evidence_path):
         json.dump(ev, fh, indent=1, default=str)
     os.replace(tmp, evidence_path)
     return rc
+
+
+def run_rules(mod, ctx):
+    """Run the statements of a property module's run(ctx) one by one, so that a rule that cannot find its anchor (or trips over a
+    construct it does not understand) yields ONE cannot-decide instance and every other rule of the property is still evaluated.
+    (The whole run used to be abandoned at the first exception: one renamed helper hid everything else the check knows.)"""
+    import ast
+    import inspect
+    import textwrap
+    import traceback
+    try:
+        src = textwrap.dedent(inspect.getsource(mod.run))
+        fn = ast.parse(src).body[0]
+        body = fn.body
+    except (OSError, TypeError, SyntaxError, IndexError):
+        mod.run(ctx)
+        return
+    # one namespace (a copy of the module's, plus ctx) serves as globals AND locals, so that lambdas / comprehensions written in
+    # run() see the loop variables and imports of earlier statements
+    env = dict(mod.__dict__)
+    env["ctx"] = ctx
+    for st in body:
+        if isinstance(st, ast.Expr) and isinstance(getattr(st, "value", None), ast.Constant):
+            continue
+        label = ast.unparse(st).split("\n")[0][:70]
+        try:
+            code = compile(ast.Module(body=[st], type_ignores=[]), "<%s.run>" % mod.__name__, "exec")
+            exec(code, env)
+        except AnchorMissing as e:
+            ctx.fail("anchors", "missing:" + label, "cannot decide: " + str(e), kind="cannot-decide")
+        except FactsError:
+            raise
+        except Exception:
+            ctx.fail("engine", "internal-error:" + label, "cannot decide: rule engine raised\n" + traceback.format_exc()[-2500:], kind="cannot-decide")
